@@ -3,27 +3,26 @@
 //! build.rs turns every program description of `family.rs` into a function holding one
 //! `dfir_syntax!{..}`; this binary drives each compiled program with EVERY input history of the
 //! stated bound and compares what the program did with the reference interpreter of `family.rs`.
-mod family;
-mod io;
-
 use std::collections::{BTreeMap, HashMap};
 use std::sync::Mutex;
 use std::time::Instant;
 
-use dfir_rs::dfir_syntax;
-use dfir_rs::scheduled::context::DfirErased;
-use family::*;
-use io::{Ev, Io, Src};
+use vf_dfir_tick_rt::ProgEntry;
+use vf_dfir_tick_rt::family::*;
+use vf_dfir_tick_rt::io::{Ev, Io};
 use vf_explore::{Report, Stats, Value, catch, cli, json, ncpu, par_map, quiet_panics};
 
-pub struct ProgEntry {
-    pub name: &'static str,
-    pub text: &'static str,
-    pub n_sources: usize,
-    pub build: fn(Io, Vec<Src>) -> DfirErased,
+/// The compiled programs of one family, ordered by family index (shards merged).
+fn table(prop: &str) -> Vec<&'static ProgEntry> {
+    let mut v: Vec<&'static ProgEntry> = match prop {
+        "C24" => vfp_c24_0of2::TABLE.iter().chain(vfp_c24_1of2::TABLE.iter()).collect(),
+        "C25" => vfp_c25_0of3::TABLE.iter().chain(vfp_c25_1of3::TABLE.iter()).chain(vfp_c25_2of3::TABLE.iter()).collect(),
+        "C26" => vfp_c26_0of1::TABLE.iter().collect(),
+        _ => unreachable!(),
+    };
+    v.sort_by_key(|e| e.index);
+    v
 }
-
-include!(concat!(env!("OUT_DIR"), "/progs.rs"));
 
 // -------------------------------------------------------------------------------------------------
 // Running a compiled program under a history
@@ -279,13 +278,16 @@ fn start_watchdog(property: String, tier: String) {
 struct GraphCase<'a> {
     g: &'a Graph,
     e: &'a ProgEntry,
-    hists: Vec<History>,
+    steps: usize,
+    max_items: usize,
+    alphabet: Vec<It>,
 }
 
 fn check_graph_prog(prop: &str, c: &GraphCase) -> Stats {
     let mut st = Stats::new();
     let mut reported = false;
-    for h in &c.hists {
+    let hists = histories(c.steps, c.g.n_sources, c.max_items, &c.alphabet, true);
+    for h in &hists {
         note_case(c.e.name, h);
         let exp = match expect_graph(c.g, h) {
             Ok(e) => e,
@@ -302,10 +304,12 @@ fn check_graph_prog(prop: &str, c: &GraphCase) -> Stats {
             st.nontrivial(&(c.e.name, hist_string(h)));
         }
         st.outcome(&(obs.ticks_after.clone(), norm_obs(&obs.log), obs.failure.clone()));
-        st.sample(|| {
-            json!({"prog": c.e.name, "history": hist_string(h), "ticks_after_each_step": obs.ticks_after,
-                   "observed": format!("{:?}", norm_obs(&obs.log))})
-        });
+        if n_ev >= 4 && extra_ticks {
+            st.sample(|| {
+                json!({"prog": c.e.name, "history": hist_string(h), "ticks_after_each_step": obs.ticks_after,
+                       "observed (tick,sink)->contents": format!("{:?}", norm_obs(&obs.log))})
+            });
+        }
         if let Some((kind, detail)) = judge_graph(&exp, &obs, h) {
             if reported {
                 st.violations_total += 1;
@@ -332,14 +336,14 @@ fn check_graph_prog(prop: &str, c: &GraphCase) -> Stats {
     st
 }
 
-fn table_check<T>(table: &[ProgEntry], fam: &[T], name: impl Fn(&T) -> String, text: impl Fn(&T) -> String) {
+fn table_check<T>(table: &[&'static ProgEntry], fam: &[T], name: impl Fn(&T) -> String, text: impl Fn(&T) -> String) {
     if table.len() != fam.len() {
         println!("MACHINERY-ERROR: compiled table has {} programs, family has {}", table.len(), fam.len());
         std::process::exit(2);
     }
     let mut names = std::collections::BTreeSet::new();
-    for (e, p) in table.iter().zip(fam) {
-        if e.name != name(p) || e.text != text(p) {
+    for (i, (e, p)) in table.iter().zip(fam).enumerate() {
+        if e.index != i || e.name != name(p) || e.text != text(p) {
             println!("MACHINERY-ERROR: compiled program {} differs from its description", e.name);
             std::process::exit(2);
         }
@@ -368,26 +372,32 @@ fn alphabet(prop: &str, thorough: bool, countdown: bool) -> Vec<It> {
     }
 }
 
-fn run_graph_property(rep: &mut Report, prop: &str, fam: &[Graph], table: &'static [ProgEntry], steps: usize, max_items: usize) {
-    table_check(table, fam, |g| g.name.clone(), |g| g.dfir_text());
+/// (steps, max items for programs with 1 source, max items for programs with more sources).
+fn run_graph_property(rep: &mut Report, prop: &str, fam: &[Graph], steps: usize, items_1: usize, items_n: usize) {
+    let table = table(prop);
+    table_check(&table, fam, |g| g.name.clone(), |g| g.dfir_text());
     let thorough = rep.thorough();
     let mut cases: Vec<GraphCase> = fam
         .iter()
-        .zip(table)
+        .zip(&table)
         .map(|(g, e)| GraphCase {
             g,
             e,
-            hists: histories(steps, g.n_sources, max_items, &alphabet(prop, thorough, g.alphabet == 1), true),
+            steps,
+            max_items: if g.n_sources == 1 { items_1 } else { items_n },
+            alphabet: alphabet(prop, thorough, g.alphabet == 1),
         })
         .collect();
-    cases.sort_by_key(|c| std::cmp::Reverse(c.hists.len()));
-    let total: usize = cases.iter().map(|c| c.hists.len()).sum();
-    println!("[vf_dfir_tick] {prop}: {} programs, {} (program, history) executions", cases.len(), total);
+    // Largest history spaces first (better balance of the worker threads).
+    cases.sort_by_key(|c| std::cmp::Reverse((c.g.n_sources, c.max_items)));
+    println!("[vf_dfir_tick] {prop}: {} compiled programs", cases.len());
     let st = par_map(cases.len(), ncpu().min(16), |i| check_graph_prog(prop, &cases[i]));
     rep.bound("programs", cases.len());
-    rep.bound("steps_per_history", steps);
-    rep.bound("max_items_per_history", max_items);
-    rep.bound("executions", total);
+    rep.bound("run_calls_per_history", steps);
+    rep.bound("max_items_per_history_single_source_programs", items_1);
+    rep.bound("max_items_per_history_multi_source_programs", items_n);
+    rep.bound("alphabet", format!("{:?}", alphabet(prop, thorough, true)));
+    rep.bound("executions", st.evaluations);
     rep.section("programs_x_histories", st);
 }
 
@@ -404,7 +414,9 @@ fn check_ref_prog(p: &RefProg, e: &ProgEntry, hists: &[History]) -> Stats {
         }
         let refs: Vec<&Ev> = obs.log.iter().filter(|e| matches!(e, Ev::Ref { .. })).collect();
         st.outcome(&(refs, obs.failure.clone()));
-        st.sample(|| json!({"prog": e.name, "history": hist_string(h), "observed_log": format!("{:?}", obs.log)}));
+        if exp.values().map(|v| v.len()).sum::<usize>() >= 3 {
+            st.sample(|| json!({"prog": e.name, "history": hist_string(h), "observed_log": format!("{:?}", obs.log)}));
+        }
         if let Some((kind, detail)) = judge_ref(p, &exp, &obs, h) {
             if reported {
                 st.violations_total += 1;
@@ -437,21 +449,23 @@ fn replay(prop: &str, file: &str) -> ! {
     println!("replaying {name} under {}", hist_string(&h));
     let verdict = match prop {
         "C24" | "C26" => {
-            let (fam, table) = if prop == "C24" { (family_c24(), TABLE_C24) } else { (family_c26(), TABLE_C26) };
+            let fam = if prop == "C24" { family_c24() } else { family_c26() };
+            let table = table(prop);
             let i = table.iter().position(|e| e.name == name).expect("unknown program");
             println!("{}", table[i].text);
             let exp = expect_graph(&fam[i], &h).expect("reference hang");
-            let obs = run_real(&table[i], &h);
+            let obs = run_real(table[i], &h);
             println!("expected ticks after each step: {:?}\nexpected: {:?}", exp.ticks_after, norm_expect(&exp));
             println!("observed ticks after each step: {:?}\nobserved: {:?}\nfailure: {:?}", obs.ticks_after, norm_obs(&obs.log), obs.failure);
             judge_graph(&exp, &obs, &h)
         }
         "C25" => {
             let fam = family_c25();
-            let i = TABLE_C25.iter().position(|e| e.name == name).expect("unknown program");
-            println!("{}", TABLE_C25[i].text);
+            let table = table("C25");
+            let i = table.iter().position(|e| e.name == name).expect("unknown program");
+            println!("{}", table[i].text);
             let exp = expect_ref(&fam[i], &h);
-            let obs = run_real(&TABLE_C25[i], &h);
+            let obs = run_real(table[i], &h);
             println!("expected: {:?}\nobserved: {:?}", exp, obs.log);
             judge_ref(&fam[i], &exp, &obs, &h)
         }
@@ -488,22 +502,22 @@ fn main() {
     rep.assume("rustc/LLVM compile the generated programs faithfully; dfir_rs::util::unbounded_channel (tokio) delivers in FIFO order and wakes the registered waker on send");
     match prop.as_str() {
         "C24" => {
-            rep.rule = "case = (compiled program, history); history = 4 run calls, each run_tick_sync or run_available_sync (all 16 vectors), preceded by sends; all placements of <= N items (order inside a slot significant). Non-trivial: the reference produces >= 1 sink event or more ticks than run calls.".into();
+            rep.rule = "case = (compiled program, history); history = 4 (thorough: 5) run calls, each run_tick_sync or run_available_sync (all 2^n vectors), preceded by sends; all placements of <= N items (order inside a slot significant). Non-trivial: the reference produces >= 1 sink event or more ticks than run calls.".into();
             rep.explanation = "current_tick() after every run call, number of ticks executed by run_available_sync, and the per-(tick,sink) multiset of items logged by the program's sinks (tick read from context.current_tick()) are compared with a tick-synchronous reference interpreter: defer_tick/defer_tick_lazy deliver exactly one tick later, non-lazy pending data or a send into the own input channel demands another tick, lazy data does not, 'tick state is reset per tick and 'static state kept.".into();
             rep.assume("stateful operators downstream of union/join use order-insensitive functions; sink contents are compared as multisets per tick");
             rep.assume("join::<'static> re-emits the whole join every tick (Appendix A)");
-            let (steps, items) = if thorough { (4, 3) } else { (4, 2) };
+            let (steps, i1, i2) = if thorough { (5, 3, 3) } else { (4, 3, 3) };
             let fam = family_c24();
-            run_graph_property(&mut rep, "C24", &fam, TABLE_C24, steps, items);
+            run_graph_property(&mut rep, "C24", &fam, steps, i1, i2);
         }
         "C26" => {
-            rep.rule = "case = (compiled program with loop blocks, history of 3 run calls x all tick/available vectors, <= N countdown items). Non-trivial: >= 1 sink event or extra ticks.".into();
+            rep.rule = "case = (compiled program with loop blocks, history of 3 (thorough: 4) run calls x all tick/available vectors, <= N countdown items). Non-trivial: >= 1 sink event or extra ticks.".into();
             rep.explanation = "Sinks inside loop bodies log one block per execution of the body (heartbeat: a unit fold emits once per subgraph run), sinks after all_iterations log per tick. Per (tick,sink): the SEQUENCE of per-iteration blocks (each a multiset) must equal the reference interpreter's explicit iteration semantics: a root loop body runs at most once per tick and only if a non-lazy entry or non-lazy tick-deferred data is present; a nested loop re-runs while a non-lazy entry buffer or non-lazy loop-deferred data is non-empty; defer_tick(_lazy) inside a nested loop delays by exactly one iteration; batch/batch_lazy release their input to the iteration that drains the entry buffer, lazy input is dropped if the loop does not fire.".into();
             rep.assume("fold emits exactly one value per execution of its subgraph (used as the per-iteration heartbeat of block sinks)");
             rep.assume("batch hands its whole pending input to the first iteration of an activation (the operator doc only promises order-preserving splitting into batches)");
-            let (steps, items) = if thorough { (3, 3) } else { (3, 2) };
+            let (steps, i1, i2) = if thorough { (4, 4, 3) } else { (3, 3, 3) };
             let fam = family_c26();
-            run_graph_property(&mut rep, "C26", &fam, TABLE_C26, steps, items);
+            run_graph_property(&mut rep, "C26", &fam, steps, i1, i2);
         }
         "C25" => {
             rep.rule = "case = (compiled program with one state and 1-3 referencing closures, history of run_tick_sync calls with all placements of <= N items over all sources). Non-trivial: >= 1 closure invocation expected.".into();
@@ -511,22 +525,23 @@ fn main() {
             rep.assume("'group declared later' is read as 'higher access-group number #{N}'; the textual declaration order of the closures is permuted and must not matter");
             rep.assume("mutating closures are only used on 'tick states (persistence of a mutation made through a reference into the next tick of a 'static state is not specified)");
             let fam = family_c25();
-            table_check(TABLE_C25, &fam, |p| p.name.clone(), |p| p.dfir_text());
-            let (steps, items) = if thorough { (3, 3) } else { (2, 3) };
+            let table = table("C25");
+            table_check(&table, &fam, |p| p.name.clone(), |p| p.dfir_text());
+            let (steps, items) = if thorough { (3, 4) } else { (3, 3) };
             let alpha = alphabet("C25", thorough, false);
-            let mut cases: Vec<(usize, Vec<History>)> =
-                fam.iter().enumerate().map(|(i, p)| (i, histories(steps, p.n_sources(), items, &alpha, false))).collect();
-            cases.sort_by_key(|c| std::cmp::Reverse(c.1.len()));
-            let total: usize = cases.iter().map(|c| c.1.len()).sum();
-            println!("[vf_dfir_tick] C25: {} programs, {} (program, history) executions", cases.len(), total);
-            let st = par_map(cases.len(), ncpu().min(16), |k| {
-                let (i, hs) = &cases[k];
-                check_ref_prog(&fam[*i], &TABLE_C25[*i], hs)
+            let mut order: Vec<usize> = (0..fam.len()).collect();
+            order.sort_by_key(|&i| std::cmp::Reverse(fam[i].n_sources()));
+            println!("[vf_dfir_tick] C25: {} compiled programs", fam.len());
+            let st = par_map(order.len(), ncpu().min(16), |k| {
+                let i = order[k];
+                let hs = histories(steps, fam[i].n_sources(), items, &alpha, false);
+                check_ref_prog(&fam[i], table[i], &hs)
             });
-            rep.bound("programs", cases.len());
-            rep.bound("steps_per_history", steps);
+            rep.bound("programs", fam.len());
+            rep.bound("ticks_per_history", steps);
             rep.bound("max_items_per_history", items);
-            rep.bound("executions", total);
+            rep.bound("alphabet", format!("{:?}", alpha));
+            rep.bound("executions", st.evaluations);
             rep.section("programs_x_histories", st);
         }
         _ => unreachable!(),
